@@ -16,7 +16,7 @@ func (rt *runtime) cmplEvaluateNodeStatement(node nodeStatement) Value {
 		goruntime.Gosched()
 		select {
 		case value := <-rt.otto.Interrupt:
-			value()
+			rt.interrupt(value)
 		default:
 		}
 	}
@@ -290,7 +290,7 @@ resultBreak:
 			goruntime.Gosched()
 			select {
 			case value := <-rt.otto.Interrupt:
-				value()
+				rt.interrupt(value)
 			default:
 			}
 		}
